@@ -449,7 +449,8 @@ def elementwise_views(ctx, defn):
                 tt = mir.in_closure(ctx.facts, cl, term)
                 return render(mir.subst(tt, lambda q: X if q == ("cparam", 1) else None))
             calls = [(rx(tm2), canon_guard(cb.guard(b2))) for b2, t2, tm2 in cb.real_calls()]
-            views.append({"kind": "map", "source": render(strip_iter(tm[2][0])), "calls": calls, "yields": [rx(cb.return_term())], "site": t["sp"]})
+            views.append({"kind": "map", "source": render(strip_iter(tm[2][0])), "calls": calls, "yields": [rx(cb.return_term())], "site": t["sp"],
+                          "complete": True})
     nexts = [(bi, t, tm) for bi, t, tm in b.real_calls() if tm[1].endswith("Iterator::next") and len(tm[2]) == 1]
     for bn, t, nt in nexts:
         elem = mir.mk_proj(nt, ("as:Some", "0"))
@@ -488,7 +489,9 @@ def elementwise_views(ctx, defn):
             calls.append((rx(tm2), rx_guard(strip(b.guard(b2)))))
         if calls or yields:
             views.append({"kind": "loop", "source": render(strip_iter(nt[2][0])), "source_term": strip_iter(nt[2][0]), "calls": calls,
-                          "yields": yields, "pushes": pushes, "site": t["sp"]})
+                          "yields": yields, "pushes": pushes, "site": t["sp"],
+                          # every element is visited: the body never leaves the loop (`break` / `return`)
+                          "complete": loop_body_always_continues(b, nt)})
     return views
 
 
@@ -817,3 +820,66 @@ def origin_read(b, op):
         p = q
         hops += 1
     return None
+
+
+def at_call(ctx, call_term):
+    """the return cases of a workspace callee AT one of its call sites: [(guard, term)] in the CALLER's vocabulary (the callee's
+    parameters replaced by the arguments of this call).  Whether a value reaches the callee through `self` or as an explicit
+    argument (`self.helper(x)` vs `Self::helper(&self.field, x)`) makes no difference in this view."""
+    callee = call_term[1]
+    if callee not in ctx.facts.bodies:
+        return None
+    cb = ctx.ibody(callee)
+    out = []
+    for g, t, bi in cb.expanded_cases(0):
+        g2 = frozenset(frozenset((a[0], mir.subst_params(a[1], call_term[2])) + tuple(a[2:]) for a in conj) for conj in g)
+        out.append((g2, mir.subst_params(t, call_term[2])))
+    return out
+
+
+def rename_term(t, target, replacement):
+    """replace every occurrence of `target` in `t` by `replacement`, including occurrences as the prefix of a longer access
+    path (projections are stored flattened, so `target.field` does not contain `target` as a sub-term)"""
+    def f(q):
+        if q == target:
+            return replacement
+        if target[0] == "proj" and q[0] == "proj" and q[1] == target[1] and len(q[2]) > len(target[2]) and q[2][:len(target[2])] == target[2]:
+            return mir.mk_proj(replacement, q[2][len(target[2]):])
+        if target[0] != "proj" and q[0] == "proj" and q[1] == target:
+            return mir.mk_proj(replacement, q[2])
+        return None
+    return mir.subst(t, f)
+
+
+def loop_body_always_continues(b, next_term):
+    """the loop driven by `next_term` (an Iterator::next call term) is left only by exhaustion: from the entry of its body
+    (the `Some` edge) every path comes back to the loop head - no `break` / `return` inside the body"""
+    bn = None
+    for bi, t, tm in b.real_calls():
+        if tm == next_term:
+            bn = bi
+    if bn is None:
+        return False
+    heads = [h for h in b.reachable if b.blocks[h]["term"]["t"] == "false_unwind" and b.dominates(h, bn)]
+    if not heads:
+        return False
+    head = max(heads, key=lambda h: sum(1 for k in heads if b.dominates(k, h)))
+    entry = None
+    for x in b.reachable:
+        if b.blocks[x]["term"]["t"] == "switch":
+            for lab, y in b.succ[x]:
+                ea = b.edge_atom(x, lab)
+                if ea[0] == "is" and ea[1] == next_term and ea[2] == frozenset(["Some"]):
+                    entry = y
+    if entry is None:
+        return False
+    seen, stack = set(), [entry]
+    while stack:
+        z = stack.pop()
+        if z in seen or z == head:
+            continue
+        if z == mir.EXIT:
+            return False
+        seen.add(z)
+        stack.extend(y for _, y in b.succ[z])
+    return True
